@@ -33,10 +33,14 @@ def _ensure_process(mod):
         _process_ready = True
 
 
-def default_minimise(mod, case: dict, signature: str, max_tests: int = 120) -> dict:
+def default_minimise(mod, case: dict, signature: str, max_tests: int = 120, max_seconds: float = 90.0) -> dict:
     budget = [max_tests]
+    t_end = simkit.real_monotonic() + max_seconds  # minimisation is a convenience: it must never cost the finding
 
     def fails(c) -> bool:
+        if simkit.real_monotonic() > t_end:
+            budget[0] = 0
+            return False
         try:
             r = mod.run_case(c)
         except BaseException:  # noqa: BLE001
